@@ -279,6 +279,11 @@ impl RADAU {
             }));
         }
         h = h.clamp(-hmax, hmax);
+        // Land exactly on xend when the first step reaches or passes it (as RADAU5 does)
+        let first_step_lands = (x + h * 1.0001 - xend) * posneg >= 0.0;
+        if first_step_lands {
+            h = xend - x;
+        }
 
         // --- Declarations ---
 
@@ -313,7 +318,7 @@ impl RADAU {
         let mut hold = h;
         let mut hnew: Float;
         let mut hhfac: Float = h;
-        let mut last = false;
+        let mut last = first_step_lands;
         let mut reject = false;
         let mut h_acc: Float = 0.0;
         let mut err_acc: Float = 0.0;
